@@ -167,9 +167,15 @@ def run(tier="quick", seed=0):
     ob = frame.writes_only_through("abtem/core/grid.py", "Grid.match", {"extent", "gpts", "sampling"},
                                    {"_extent", "_gpts", "_sampling", "_dimensions", "_endpoint", "_lock_extent",
                                     "_lock_gpts", "_lock_sampling"}, PROPERTY, "writes-only-through-contracted-setters")
-    res["obligations"].append(ob)
-    if ob.get("function"):
-        res["functions"].append(ob["function"])
+    _PRIV = {"_extent", "_gpts", "_sampling", "_dimensions", "_endpoint", "_lock_extent", "_lock_gpts", "_lock_sampling"}
+    # the induction over histories needs that nothing but the contracted methods writes the fields the invariant talks about
+    ob2 = frame.fields_encapsulated("abtem/core/grid.py", "Grid", _PRIV,
+                                    {"__init__", "extent", "gpts", "sampling", "_adjust_extent", "_adjust_gpts",
+                                     "_adjust_sampling"}, PROPERTY, "fields-written-only-by-contracted-methods")
+    for _o in (ob, ob2):
+        res["obligations"].append(_o)
+        if _o.get("function") and _o["function"] not in res["functions"]:
+            res["functions"].append(_o["function"])
     res.setdefault("assumptions", []).append(
         "Grid.match: tier F (syntactic) shows it writes grid state only through the extent / gpts / sampling setters; that the "
         "values it passes satisfy the setter preconditions is bounded (bounded/c17.py match rows)")
